@@ -3,6 +3,7 @@ mod core;
 mod dft;
 mod hal;
 mod ks;
+mod mul;
 mod tmpbytes;
 mod util;
 mod wire;
@@ -146,6 +147,23 @@ fn main() {
             }
             out.flush().unwrap();
             println!("ks: {} events", cases.len());
+        }
+        // mul <descriptors.ndjson> <events.ndjson>
+        "mul" => {
+            let cases = read_ndjson(&args[2]);
+            let mut out = BufWriter::new(std::fs::File::create(&args[3]).unwrap());
+            let mut mods = mul::MMods::new();
+            let seed = env_seed();
+            for (idx, c0) in cases.iter().enumerate() {
+                let mut c = c0.clone();
+                if c.get("id").is_none() {
+                    c["id"] = serde_json::json!(idx + 1);
+                }
+                let ev = mul::run_mul(&mut mods, &c, seed);
+                writeln!(out, "{}", serde_json::to_string(&ev).unwrap()).unwrap();
+            }
+            out.flush().unwrap();
+            println!("mul: {} events", cases.len());
         }
         // xp <descriptors.ndjson> <events.ndjson>
         "xp" => {
